@@ -23,9 +23,9 @@ func c05build(ops []*Sx) (*flamego.Flame, bool) {
 	f.Use(func(c flamego.Context) { c.Map(c05tok(c.Request().Header.Get("X-Tok"))) })
 	f.Use(func(c flamego.Context) { c.Next() })
 	f.Use(func(c flamego.Context) {})
-	f.Use(flamego.Renderer()) // every other route answers through the request's Render
+	f.Use(flamego.Renderer())         // every other route answers through the request's Render
 	f.Use(func(c flamego.Context) {}) // five Use calls: length 5, capacity 8 - spare capacity again
-	f.Map(&svcA{id: 77})      // resolved by handlers through the interface i1
+	f.Map(&svcA{id: 77})              // resolved by handlers through the interface i1
 	f.NotFound(func(c flamego.Context, t c05tok) string { return "(notfound) tok=" + string(t) })
 	var routes []*flamego.Route
 	ok := true
